@@ -104,6 +104,20 @@ def streams(rng, tier):
                     mb[rng.randrange(len(mb))] = rng.choice([0x00, 0x18, 0x1b, 0x20, 0x3b, 0x40, 0x5f, 0x60, 0x7f, 0x80, 0x81, 0x9f, 0xa0, 0xbf,
                                                              0xc0, 0xf4, 0xf6, 0xf7, 0xf9, 0xfa, 0xfb, 0xff, rng.getrandbits(8)])
                     h_ops.append(f"ide {name} {T.hx(bytes(mb))} #m=mut")
+    # bulk documents (hundreds of tuples / fixed arrays / options in one document), both directions
+    for name in sorted(T.SHARED):
+        t = TREES[name]
+        if not T.has_container(t):
+            continue
+        for count in ((130, 300) if tier == "quick" else (127, 128, 129, 255, 256, 257, 300, 1000)):
+            v = T.gen_bulk(rng, t, count)
+            s = T.show_val(v)
+            if len(s) > 40000 or len(T.spec_enc(v)) > 8192:        # the model driver is quadratic in the document size
+                continue
+            e_ops.append(f"iser {name} {s}")
+            for m, o in FRAMES.items():
+                h = T.spec_enc(v, dict(o, rng=rng)).hex()
+                d_ops.append(f"ide {name} {h} #m={m} #v={s}")
     for kind, (lo, hi) in T.INT_KINDS.items():
         for k in range(0, 65):
             for d in (-1, 0, 1):
